@@ -48,3 +48,43 @@ Theorem C08_curve_edges_above_the_surface_partial : forall fuel e cury, cinv e -
   e_y2 (fst (prestep_fast fuel e cury)) = e_y2 e.
 Proof. exact prestep_fast_spec. Qed.
 Print Assumptions C08_curve_edges_above_the_surface_partial.
+
+(* ---- the curve-edge machinery (RasterTotal.v) ---- *)
+From Coq Require Import Permutation.
+Require Import RQ.RasterProofs RQ.RasterTotal.
+
+(* (6) the forward differencing follows the quadratic: with n = 2^s segments the k-th point P_k of the polyline never
+   lies above the exact Bezier point B(k/n) and at most 2k+1 <= 129 units of 2^-16 pixel below it
+   (bez_num = n^2 B(k/n); applies to the x and to the y coordinate alike) *)
+Theorem C08_curve_points_follow_the_bezier_partial : forall p1 p2 c s k, 1 <= s ->
+  let n := 2 ^ s in let K := Z.of_nat k in
+  0 <= 16384 * bez_num p1 c p2 n K - n * n * fd_point p1 p2 c s k <= n * n * K + n * K * (K + 1).
+Proof. exact curve_point_error. Qed.
+Print Assumptions C08_curve_points_follow_the_bezier_partial.
+
+(* (7) hence every vertex of the polyline lies in the hull of the control values (up to that rounding) *)
+Theorem C08_curve_points_in_hull_partial : forall p1 p2 c s k lo hi, 1 <= s -> Z.of_nat k <= 2 ^ s ->
+  lo <= p1 <= hi -> lo <= c <= hi -> lo <= p2 <= hi ->
+  lo * 16384 - (2 * Z.of_nat k + 1) <= fd_point p1 p2 c s k <= hi * 16384.
+Proof. exact fd_point_hull. Qed.
+Print Assumptions C08_curve_points_in_hull_partial.
+
+(* (8) row coverage of a curve edge: for y-monotone control points the polyline's y never decreases; the edge is filed
+   under row max(y1,0), ends at y2, is scanned exactly once on each sample row of [max(y1,0), y2) and on no other; and
+   (if no slope quotient wraps) on each of those rows the current segment reaches the row and the rounded crossing
+   lies inside the pixel-aligned hull of the control points - the edge never leaves the path's bounds *)
+Theorem C08_curve_edge_rows_partial : forall x1 y1 x2 y2 cx cy w, y1 < y2 ->
+  let s := curve_shift x1 y1 x2 y2 cx cy in
+  let p := curve_entry x1 y1 x2 y2 cx cy w in
+  (y1 <= cy <= y2 -> forall k, Z.of_nat k < 2 ^ s -> fd_point y1 y2 cy s k <= fd_point y1 y2 cy s (S k)) /\
+  (fst p = Z.max y1 0 /\ e_y2 (snd p) = y2 /\ egood (snd p)) /\
+  (forall y0 starts n, starts_wf starts -> y0 <= Z.max y1 0 ->
+     let y := y0 + Z.of_nat n in
+     let f := fun q : Z * aedge => (y0 <=? fst q) && (fst q <=? y) && (y <? e_y2 (snd q)) in
+     Permutation (scanned starts y (act_list starts n y0 [])) (map (edge_at_gen y) (filter f starts)) /\
+     f p = (Z.max y1 0 <=? y) && (y <? y2)) /\
+  (curve_no_slope_wrap x1 y1 x2 y2 cx cy w -> forall y, Z.max y1 0 <= y < y2 ->
+     y <= dot16_to_dot2 (e_nexty (edge_at_gen y p)) /\
+     4 * (Z.min (Z.min x1 x2) cx / 4) <= rnd (e_fullx (edge_at_gen y p)) <= 4 * ((Z.max (Z.max x1 x2) cx + 3) / 4)).
+Proof. exact curve_edge_rows. Qed.
+Print Assumptions C08_curve_edge_rows_partial.
